@@ -82,7 +82,12 @@ func isNamedStruct(t types.Type) (*types.Named, *types.Struct, bool) {
 }
 
 func typeKey(t types.Type) string {
-	return types.TypeString(t, func(p *types.Package) string { return p.Name() })
+	t = types.Unalias(t)
+	if i, ok := t.(*types.Interface); ok && i.NumMethods() == 0 {
+		return "any"
+	}
+	s := types.TypeString(t, func(p *types.Package) string { return p.Name() })
+	return strings.ReplaceAll(s, "interface{}", "any")
 }
 
 // leavesOf lists the scalar leaves of a type.
